@@ -1085,6 +1085,350 @@ fn s_updates(it: &Interner, store: &Store, up: &resolver::StoreUpdates) -> Strin
     )
 }
 
+
+// ---------------------------------------------------------------------------
+// History kind: drive the REAL commands on a store directory on disk.
+
+struct TapRec {
+    step: usize,
+    store: Store,
+    /// `None` for a `resolve` call, the per-name update mode for `get_store_updates`.
+    modes: Option<BTreeMap<String, (SearchMode, bool, bool, bool)>>,
+}
+
+fn all_names(metadata: &Metadata, store: &Store) -> BTreeSet<String> {
+    make_interner(metadata, store, &[]).names.into_iter().collect()
+}
+
+fn dispatch(out: &std::sync::Arc<dyn crate::out::Out>, cfg: &Config) -> Result<(), miette::Report> {
+    use crate::cli::Commands::*;
+    use crate::cli::RegenerateSubcommands::*;
+    match &cfg.cli.command {
+        None => crate::cmd_check(out, cfg, &cfg.cli.check_args),
+        Some(Check(a)) => crate::cmd_check(out, cfg, a),
+        Some(Init(a)) => crate::cmd_init(out, cfg, a),
+        Some(Certify(a)) => crate::cmd_certify(out, cfg, a),
+        Some(Import(a)) => crate::cmd_import(out, cfg, a),
+        Some(Trust(a)) => crate::cmd_trust(out, cfg, a),
+        Some(AddExemption(a)) => crate::cmd_add_exemption(out, cfg, a),
+        Some(RecordViolation(a)) => crate::cmd_record_violation(out, cfg, a),
+        Some(Suggest(a)) => crate::cmd_suggest(out, cfg, a),
+        Some(Fmt(a)) => crate::cmd_fmt(out, cfg, a),
+        Some(Prune(a)) => crate::cmd_prune(out, cfg, a),
+        Some(Regenerate(Imports(a))) => crate::cmd_regenerate_imports(out, cfg, a),
+        Some(Regenerate(Exemptions(a))) => crate::cmd_regenerate_exemptions(out, cfg, a),
+        Some(Regenerate(AuditAsCratesIo(a))) => crate::cmd_regenerate_audit_as(out, cfg, a),
+        Some(Regenerate(Unpublished(a))) => crate::cmd_regenerate_unpublished(out, cfg, a),
+        Some(Renew(a)) => crate::cmd_renew(out, cfg, a),
+        _ => Err(miette::miette!("harness: unsupported command")),
+    }
+}
+
+
+fn remote_of<'a>(case: &'a Value, step: &'a Value) -> &'a Value {
+    if step.get("remote").is_some() {
+        &step["remote"]
+    } else {
+        case
+    }
+}
+
+/// Run one real command in-process against the store directory `dir`.
+fn run_cmd(
+    metadata: &Metadata,
+    dir: &std::path::Path,
+    args: &[String],
+    remote: &Value,
+) -> (String, String) {
+    use clap::Parser;
+    let parsed = crate::cli::FakeCli::try_parse_from(args);
+    match parsed {
+        Err(e) => (
+            format!("cli-error: {}", e.to_string().lines().next().unwrap_or("")),
+            String::new(),
+        ),
+        Ok(crate::cli::FakeCli::Vet(cli)) => {
+            let cfg = Config {
+                metacfg: crate::format::MetaConfig(vec![crate::format::MetaConfigInstance {
+                    version: Some(1),
+                    store: Some(crate::format::StoreInfo {
+                        path: Some(dir.to_owned()),
+                    }),
+                }]),
+                metadata: metadata.clone(),
+                _rest: crate::PartialConfig {
+                    cli,
+                    now: super::mock_now(),
+                    cache_dir: std::path::PathBuf::new(),
+                    mock_cache: true,
+                },
+            };
+            // fresh mock network for this run (drain any leftover first)
+            while crate::network::verif_hook::take().is_some() {}
+            crate::network::verif_hook::inject(build_network(remote));
+            let out = super::BasicTestOutput::new();
+            let dynout = out.clone().as_dyn();
+            let r = catch_unwind(AssertUnwindSafe(|| dispatch(&dynout, &cfg)));
+            let outcome = match r {
+                Ok(Ok(())) => "ok".to_owned(),
+                Ok(Err(e)) => {
+                    let d = format!("{e:?}");
+                    format!("err: {} {}", error_kind(&d), d.chars().take(300).collect::<String>())
+                }
+                Err(p) => match p.downcast_ref::<crate::ExitPanic>() {
+                    Some(crate::ExitPanic(code)) => format!("exit({code})"),
+                    None => format!("panic: {}", panic_message(&p)),
+                },
+            };
+            while crate::network::verif_hook::take().is_some() {}
+            (outcome, out.to_string())
+        }
+    }
+}
+
+/// Run a command on a scratch COPY of the store directory; returns outcome, output and the files it left.
+fn probe(
+    metadata: &Metadata,
+    files: &[String; 3],
+    args: &[&str],
+    remote: &Value,
+) -> Value {
+    let tmp = tempfile::tempdir().unwrap();
+    let dir = tmp.path().join("supply-chain");
+    std::fs::create_dir_all(&dir).unwrap();
+    for (n, t) in ["config.toml", "audits.toml", "imports.lock"].iter().zip(files) {
+        std::fs::write(dir.join(n), t).unwrap();
+    }
+    let mut a: Vec<String> = vec!["cargo".into(), "vet".into()];
+    a.extend(args.iter().map(|x| (*x).to_owned()));
+    let (outcome, output) = run_cmd(metadata, &dir, &a, remote);
+    let after = read_files(&dir);
+    let conclusion = serde_json::from_str::<Value>(&output)
+        .ok()
+        .and_then(|v| v["conclusion"].as_str().map(|s| s.to_owned()));
+    json!({"outcome": outcome, "conclusion": conclusion,
+           "same_bytes": [files[0] == after[0], files[1] == after[1], files[2] == after[2]],
+           "files": {"config": after[0], "audits": after[1], "imports": after[2]}})
+}
+
+fn read_files(dir: &std::path::Path) -> [String; 3] {
+    ["config.toml", "audits.toml", "imports.lock"]
+        .map(|f| std::fs::read_to_string(dir.join(f)).unwrap_or_else(|_| "<missing>".to_owned()))
+}
+
+fn run_history(case: &Value) -> Value {
+    use std::cell::RefCell;
+    use std::rc::Rc;
+    let metadata = build_metadata(&case["graph"]);
+    let tmp = tempfile::tempdir().unwrap();
+    let dir = tmp.path().join("supply-chain");
+    let st = &case["store"];
+    if !st.is_null() {
+        std::fs::create_dir_all(&dir).unwrap();
+        // Canonicalise the initial files through the real writer so that locked
+        // runs do not trip over the generator's formatting.
+        let texts = match Store::mock_acquire(
+            st["config"].as_str().unwrap(),
+            st["audits"].as_str().unwrap(),
+            st["imports"].as_str().unwrap(),
+            mock_today(),
+            false,
+        ) {
+            Ok(s) => s.mock_commit(),
+            Err(e) => {
+                let e = format!("{e:?}");
+                return json!({"status": "refused", "error_kind": error_kind(&e), "error": e});
+            }
+        };
+        for (name, text) in &texts {
+            std::fs::write(dir.join(name), text).unwrap();
+        }
+    }
+    let recs: Rc<RefCell<Vec<TapRec>>> = Rc::new(RefCell::new(Vec::new()));
+    let cur_step = Rc::new(RefCell::new(0usize));
+    {
+        let recs = recs.clone();
+        let cur_step = cur_step.clone();
+        let md = metadata.clone();
+        resolver::verif_tap::TAP.with(|t| {
+            *t.borrow_mut() = Some(Box::new(move |store: &Store, mode| {
+                let modes = mode.map(|m| {
+                    all_names(&md, store)
+                        .into_iter()
+                        .map(|n| {
+                            let um = m(&n);
+                            (
+                                n,
+                                (
+                                    um.search_mode,
+                                    um.prune_exemptions,
+                                    um.prune_non_importable_audits,
+                                    um.prune_imports,
+                                ),
+                            )
+                        })
+                        .collect()
+                });
+                recs.borrow_mut().push(TapRec {
+                    step: *cur_step.borrow(),
+                    store: store.clone_for_suggest(false),
+                    modes,
+                });
+            }));
+        });
+    }
+    let mut steps_out = Vec::new();
+    let mut posts: Vec<Option<Store>> = Vec::new();
+    for (k, step) in case["steps"].as_array().unwrap().iter().enumerate() {
+        *cur_step.borrow_mut() = k;
+        let mut args: Vec<String> = vec!["cargo".into(), "vet".into()];
+        args.extend(step["args"].as_array().unwrap().iter().map(|a| a.as_str().unwrap().to_owned()));
+        let before = read_files(&dir);
+        let remote = remote_of(case, step);
+        let do_probes = case["probes"].as_bool().unwrap_or(true) && dir.exists();
+        *cur_step.borrow_mut() = 1000 + 10 * k;
+        let pre_check = if do_probes {
+            probe(&metadata, &before, &["check", "--output-format=json"], remote)
+        } else {
+            Value::Null
+        };
+        *cur_step.borrow_mut() = k;
+        let (outcome, output) = run_cmd(&metadata, &dir, &args, remote);
+        let after = read_files(&dir);
+        let post = Store::mock_acquire(&after[0], &after[1], &after[2], mock_today(), false).ok();
+        // would a --locked load accept what is on disk (formatting + lock freshness)?
+        let locked_load = Store::mock_acquire(&after[0], &after[1], &after[2], mock_today(), true)
+            .map(|_| "ok".to_owned())
+            .unwrap_or_else(|e| error_kind(&format!("{e:?}")));
+        let post_json = post.as_ref().map(|p| {
+            json!({
+                "config": serde_json::to_value(&p.config).unwrap_or(Value::Null),
+                "audits": serde_json::to_value(&p.audits).unwrap_or(Value::Null),
+                "imports": serde_json::to_value(&p.imports).unwrap_or(Value::Null),
+            })
+        });
+        posts.push(post);
+        let (mut post_check, mut post_locked, mut repeat) = (Value::Null, Value::Null, Value::Null);
+        if do_probes && outcome == "ok" {
+            *cur_step.borrow_mut() = 1000 + 10 * k + 1;
+            post_check = probe(&metadata, &after, &["check", "--output-format=json"], remote);
+            *cur_step.borrow_mut() = 1000 + 10 * k + 2;
+            post_locked = probe(&metadata, &after, &["check", "--locked", "--output-format=json"], &json!({}));
+            *cur_step.borrow_mut() = 1000 + 10 * k + 3;
+            let rest: Vec<&str> = args[2..].iter().map(|x| x.as_str()).collect();
+            repeat = probe(&metadata, &after, &rest, remote);
+            if let Some(o) = repeat.as_object_mut() {
+                o.remove("files");
+            }
+        }
+        for p in [&mut post_check, &mut post_locked] {
+            if let Some(o) = p.as_object_mut() {
+                o.remove("files");
+            }
+        }
+        let mut pre_check = pre_check;
+        if let Some(o) = pre_check.as_object_mut() {
+            o.remove("files");
+        }
+        steps_out.push(json!({
+            "pre_check": pre_check, "post_check": post_check, "post_locked": post_locked, "repeat": repeat,
+            "args": step["args"], "outcome": outcome, "output": output,
+            "changed": [before[0] != after[0], before[1] != after[1], before[2] != after[2]],
+            "files": {"config": after[0], "audits": after[1], "imports": after[2]},
+            "locked_load": locked_load,
+            "post": post_json,
+        }));
+    }
+    resolver::verif_tap::TAP.with(|t| *t.borrow_mut() = None);
+
+    // Global interner over everything the history touched.
+    let recs = Rc::try_unwrap(recs).ok().expect("tap still referenced").into_inner();
+    let mut names = BTreeSet::new();
+    let mut vs = BTreeSet::new();
+    let mut crits: Option<Vec<String>> = None;
+    let mut same_criteria = true;
+    for s in recs.iter().map(|r| &r.store).chain(posts.iter().flatten()) {
+        let it = make_interner(&metadata, s, &[]);
+        names.extend(it.names);
+        vs.extend(it.versions);
+        match &crits {
+            None => crits = Some(it.criteria),
+            Some(c) => same_criteria &= *c == it.criteria,
+        }
+    }
+    let it = Interner {
+        names: names.into_iter().collect(),
+        versions: vs.into_iter().collect(),
+        criteria: crits.unwrap_or_else(|| vec!["safe-to-run".into(), "safe-to-deploy".into()]),
+    };
+    let cfg = mock_cfg(&metadata);
+    let mut taps = Vec::new();
+    for r in &recs {
+        // criteria tables may differ between steps only if a command edits audits.toml's
+        // criteria, which none of the driven commands does
+        let store = &r.store;
+        let graph = resolver::DepGraph::new(&metadata, None, Some(&store.config.policy));
+        let model_in = json!({
+            "graph": m_depgraph_in(&it, &metadata, store, &graph),
+            "store": m_store(&it, store),
+        });
+        let res = catch_unwind(AssertUnwindSafe(|| match &r.modes {
+            None => {
+                let mapper = CriteriaMapper::new(&store.audits.criteria);
+                let reqs: Vec<u128> =
+                    resolver::verif_resolve_requirements(&graph, &store.config.policy, &mapper)
+                        .iter()
+                        .map(bits)
+                        .collect();
+                let report = resolver::resolve(&metadata, None, store);
+                s_report(&it, store, &report, &reqs)
+            }
+            Some(modes) => {
+                let up = resolver::get_store_updates(&cfg, store, |name| {
+                    let (s, a, b, c) = modes[name];
+                    UpdateMode {
+                        search_mode: s,
+                        prune_exemptions: a,
+                        prune_non_importable_audits: b,
+                        prune_imports: c,
+                    }
+                });
+                s_updates(&it, store, &up)
+            }
+        }));
+        let modes_json = r.modes.as_ref().map(|m| {
+            m.iter()
+                .map(|(n, (s, a, b, c))| {
+                    json!({"name": it.name(n), "search": format!("{s:?}"), "prune_exemptions": a,
+                           "prune_audits": b, "prune_imports": c})
+                })
+                .collect::<Vec<_>>()
+        });
+        taps.push(json!({
+            "step": r.step,
+            "kind": if r.modes.is_some() { "update" } else { "resolve" },
+            "locked": store.live_imports.is_none(),
+            "modes": modes_json,
+            "model_input": model_in,
+            "obs": res.unwrap_or_else(|p| format!("PANIC {}", panic_message(&p))),
+        }));
+    }
+    let post_stores: Vec<Value> = posts
+        .iter()
+        .map(|p| match p {
+            Some(s) => json!({"store": m_store(&it, s)}),
+            None => Value::Null,
+        })
+        .collect();
+    let tables = json!({
+        "names": it.names,
+        "versions": it.versions.iter().map(|v| v.to_string()).collect::<Vec<_>>(),
+        "criteria": it.criteria,
+        "same_criteria": same_criteria,
+    });
+    json!({"status": "ok", "steps": steps_out, "taps": taps, "post_stores": post_stores, "tables": tables})
+}
+
 fn panic_message(p: &Box<dyn std::any::Any + Send>) -> String {
     if let Some(s) = p.downcast_ref::<String>() {
         s.clone()
@@ -1101,6 +1445,7 @@ fn run_case(case: &Value) -> Value {
     let kind = case["kind"].as_str().unwrap_or("resolve");
     let r = catch_unwind(AssertUnwindSafe(|| match kind {
         "resolve" => run_resolve(case),
+        "history" => run_history(case),
         other => json!({"status": "harness_error", "error": format!("unknown kind {other}")}),
     }));
     let mut v = match r {
